@@ -517,6 +517,33 @@ impl Space for SmallMatrices {
     }
 }
 
+/// The public unit tables: the three unit classes and the maximum rounding increment, for every variant.
+struct UnitTables;
+impl Space for UnitTables {
+    fn name(&self) -> String {
+        "c10.unit_tables".into()
+    }
+    fn len(&self) -> u64 {
+        11
+    }
+    fn eval(&self, i: u64, out: &mut Out) {
+        let units = [Unit::Auto, Unit::Nanosecond, Unit::Microsecond, Unit::Millisecond, Unit::Second, Unit::Minute, Unit::Hour, Unit::Day, Unit::Week, Unit::Month, Unit::Year];
+        let u = units[i as usize];
+        out.nontrivial += 1;
+        // (calendar, date, time, maximum increment) per the specification's tables; auto belongs to no class
+        let model = match i {
+            0 => (false, false, false, None),
+            1..=3 => (false, false, true, Some(1000u32)),
+            4 | 5 => (false, false, true, Some(60)),
+            6 => (false, false, true, Some(24)),
+            7 => (false, true, false, None),
+            _ => (true, true, false, None),
+        };
+        let got = call_inf(|| (u.is_calendar_unit(), u.is_date_unit(), u.is_time_unit(), u.to_maximum_rounding_increment()));
+        out.lockstep("Unit: classes and maximum rounding increment", &Ok(model), &got, |a, b| a == b, || vec![("unit", format!("{u:?}"))]);
+    }
+}
+
 /// RoundingIncrement construction: integers in [1, 1e9] after truncation; everything else is a RangeError.
 struct IncrementCtor;
 impl Space for IncrementCtor {
@@ -583,6 +610,7 @@ pub fn spaces(env: &Env) -> Vec<Box<dyn Space>> {
         Box::new(DurationMatrix { modes: modes(), durs: durations() }),
         Box::new(SmallMatrices { durs: durations() }),
         Box::new(IncrementCtor),
+        Box::new(UnitTables),
     ]
 }
 
